@@ -326,7 +326,7 @@ def reload_identifiers(rep, prop, n, sd):
     for i, (case, problems) in enumerate(obs):
         rep.cov["evaluations"] += 1
         for pb in problems:
-            if "identifier of reloaded node" in pb:
+            if "identifier of reloaded node" in pb or "identifier of a new holder" in pb:
                 rep.violation(f"{prop}/reload/{pb.split(':')[0]}/identifier differs", f"graph #{i}: {pb}", {"graph": gs[i], "seed": sd * 17 + i, "io": True})
     rep.cov["reloaded_graphs"] = len(gs)
 
@@ -565,7 +565,7 @@ def run(prop, tier, replay=None):
             case, diffs = _w_io((payload["graph"], payload.get("seed", 0)))
             print("problems:", diffs)
             for d in diffs:
-                if d.startswith(IO_PREFIX.get(prop, ())) or (prop == "C03" and "identifier of reloaded node" in d):
+                if d.startswith(IO_PREFIX.get(prop, ())) or (prop in ("C01", "C02", "C03") and "identifier of" in d):
                     rep.violation(f"{prop}/replay", d, payload)
         elif "graph" in payload:
             case, diffs = _w_observe((payload["graph"], payload.get("seed", 0), True))
@@ -593,12 +593,14 @@ def run(prop, tier, replay=None):
         hashseeds(rep, 120 if tier == "quick" else 1500, sd)
         golden(rep)
         resubmit_paths(rep, 40 if tier == "quick" else 400, sd, "C01")      # the job directory is named by the identifier
+        reload_identifiers(rep, prop, nq // 4, sd)
     elif prop == "C02":
         model_check(rep, prop, "MC_ConfigSig.tla", "MC_ConfigSig_small.cfg" if tier == "quick" else "MC_ConfigSig.cfg", None,
                     "Enc(x) = Enc(y) <=> Sig(x) = Sig(y) over the value and structure families")
         pairs(rep, prop, nq * 2, sd)
         conformance_random(rep, prop, nq // 2, sd)
         evolution(rep)
+        reload_identifiers(rep, prop, nq // 4, sd)
     elif prop == "C03":
         model_check(rep, prop, "MC_ConfigSig.tla", "MC_ConfigSig_small.cfg" if tier == "quick" else "MC_ConfigSig.cfg", None,
                     "Enc(x) = Enc(y) <=> Sig(x) = Sig(y) over the value and structure families")
